@@ -106,6 +106,10 @@ func main() {
 		env.Close()
 		os.Exit(2)
 	}
+	if os.Getenv("VERIF_NOFINDINGS") != "" {
+		// development aid (never part of a registered command): judge as if nothing were listed, to audit what each pattern absorbs
+		fs = &Findings{}
+	}
 	rep := NewReport(id, env, fs)
 	// whole-run wall-clock watchdog: firing is INCONCLUSIVE, never a verdict
 	limit := 20 * time.Minute
